@@ -3,17 +3,19 @@
 # The evidence files are saved and restored: committed evidence must come from runs on the unchanged tree.
 set -u
 patch="$1"; shift
-cd /repo || exit 2
+REPO="${VERIF_REPO:-/repo}"
+V="$(cd "$(dirname "$0")/.." && pwd)"
+cd "$REPO" || exit 2
 if ! git diff --quiet; then echo "repo dirty"; exit 2; fi
 git apply "$patch" || { echo "patch does not apply"; exit 2; }
-bk=$(mktemp -d); cp -a /verif/evidence/. "$bk"/ 2>/dev/null
+bk=$(mktemp -d); cp -a "$V"/evidence/. "$bk"/ 2>/dev/null
 for p in "$@"; do
-  out=$(cd /verif && timeout 1800 bin/check "$p" 2>&1)
+  out=$(cd "$V" && timeout 1800 bin/check "$p" 2>&1)
   rc=$?
   echo "== $p rc=$rc"
   echo "$out" | grep -E "VIOLATION|KNOWN|^\[$p\]" | cut -c1-400 | head -8
 done
-git -C /repo checkout -- .
-rm -rf /verif/evidence; mkdir -p /verif/evidence; cp -a "$bk"/. /verif/evidence/; rm -rf "$bk"
+git -C "$REPO" checkout -- .
+rm -rf "$V"/evidence; mkdir -p "$V"/evidence; cp -a "$bk"/. "$V"/evidence/; rm -rf "$bk"
 # regenerate the facts for the unchanged tree
-[ -x /verif/build/extract ] && /verif/build/extract /repo /verif/lean/BB/Gen >/dev/null
+[ -x "$V"/build/extract ] && "$V"/build/extract "$REPO" "$V"/lean/BB/Gen >/dev/null
